@@ -86,12 +86,45 @@ def make_adapter(spec):
     if k == "stack":
         return A.StackTime()
     if k == "dfix":
+        if len(spec) > 2 and spec[2] == "custom":
+            return _custom_delay(spec[1] * TICK[0])
         return A.DelayFixed(spec[1] * TICK[0])
     if k == "dpull":
         return A.DelayToPull(steps=spec[1], additional_delay=spec[2] * TICK[0])
     if k == "dpush":
         return A.DelayToPush()
     raise ValueError(k)
+
+
+_LAG = None
+
+
+def _custom_delay(delay):
+    """a user-written fixed delay: implements the public interface ITimeDelayAdapter on a plain Adapter (as the
+    scheduler's own error message recommends) - same shift as DelayFixed, nothing of the SDK helper's attributes"""
+    global _LAG  # pylint: disable=global-statement
+    if _LAG is None:
+        import finam as fm
+
+        class Lag(fm.Adapter, fm.ITimeDelayAdapter):
+            def __init__(self, delay):
+                super().__init__()
+                self.lag, self.first = delay, None
+
+            def with_delay(self, time):
+                off = time - self.lag
+                return self.first if self.first is not None and off < self.first else off
+
+            def _get_data(self, time, target):
+                return self.pull_data(self.with_delay(time), target)
+
+            def _get_info(self, info):
+                in_info = self.exchange_info(info)
+                self.first = in_info.time
+                return in_info
+
+        _LAG = Lag
+    return _LAG(delay)
 
 
 PUSH_BASED = {"next", "prev", "lin", "step", "avg", "sum", "stack"}
